@@ -169,13 +169,13 @@ func c12Lend(t *testing.T, rec *ev.Rec) {
 		}
 		sort.Slice(lids, func(i, j int) bool { return lids[i] < lids[j] })
 		sort.Slice(bids, func(i, j int) bool { return bids[i] < bids[j] })
-		if len(lids) > 3 {
-			lids = lids[:3]
+		if len(lids) > 4 {
+			lids = lids[:4]
 		}
 		if len(bids) > 3 {
 			bids = bids[:3]
 		}
-		for _, id := range lids {
+		for li, id := range lids {
 			l := s.lends[id]
 			owner := acctOf(c, l.Owner)
 			if owner == nil {
@@ -183,11 +183,27 @@ func c12Lend(t *testing.T, rec *ev.Rec) {
 			}
 			denom := e.u.Assets[l.AssetID].Denom
 			small := sdk.NewCoin(denom, sdk.NewInt(1000))
-			for _, pc := range []pairedCase{
+			cases := []pairedCase{
 				{name: "lend/deposit", owner: owner, mk: func(a *sim.Acct) sdk.Msg { return lendtypes.NewMsgDeposit(a.Addr.String(), id, small) }},
 				{name: "lend/withdraw", owner: owner, mk: func(a *sim.Acct) sdk.Msg { return lendtypes.NewMsgWithdraw(a.Addr.String(), id, small) }},
-				{name: "lend/close-lend", owner: owner, mk: func(a *sim.Acct) sdk.Msg { return lendtypes.NewMsgCloseLend(a.Addr.String(), id) }},
-			} {
+				// amounts a hostile sender would solve from the public state of the position
+				{name: "lend/withdraw/amount-in-plus-1", owner: owner, mk: func(a *sim.Acct) sdk.Msg {
+					return lendtypes.NewMsgWithdraw(a.Addr.String(), id, sdk.NewCoin(denom, l.AmountIn.Amount.AddRaw(1)))
+				}},
+			}
+			if li%2 == 0 {
+				cases = append(cases, pairedCase{name: "lend/close-lend", owner: owner, mk: func(a *sim.Acct) sdk.Msg { return lendtypes.NewMsgCloseLend(a.Addr.String(), id) }})
+			} else {
+				cases = append(cases, pairedCase{name: "lend/withdraw/exactly-available", owner: owner, mk: func(a *sim.Acct) sdk.Msg {
+					cur, _ := c.App.LendKeeper.GetLend(c.Ctx(), id)
+					amt := cur.AvailableToBorrow
+					if !amt.IsPositive() {
+						amt = sdk.NewInt(1)
+					}
+					return lendtypes.NewMsgWithdraw(a.Addr.String(), id, sdk.NewCoin(denom, amt))
+				}})
+			}
+			for _, pc := range cases {
 				runPaired(c, rec, keys, pc, othersOf(c, owner, 3))
 			}
 		}
@@ -208,6 +224,9 @@ func c12Lend(t *testing.T, rec *ev.Rec) {
 			oneIn := sdk.NewCoin(b.AmountIn.Denom, sdk.NewInt(1000))
 			for _, pc := range []pairedCase{
 				{name: "lend/repay", owner: owner, mk: func(a *sim.Acct) sdk.Msg { return lendtypes.NewMsgRepay(a.Addr.String(), id, one) }},
+				{name: "lend/repay/whole-debt", owner: owner, mk: func(a *sim.Acct) sdk.Msg {
+					return lendtypes.NewMsgRepay(a.Addr.String(), id, sdk.NewCoin(b.AmountOut.Denom, b.AmountOut.Amount.Add(b.InterestAccumulated.TruncateInt())))
+				}},
 				{name: "lend/draw", owner: owner, mk: func(a *sim.Acct) sdk.Msg { return lendtypes.NewMsgDraw(a.Addr.String(), id, one) }},
 				{name: "lend/deposit-borrow", owner: owner, mk: func(a *sim.Acct) sdk.Msg { return lendtypes.NewMsgDepositBorrow(a.Addr.String(), id, oneIn) }},
 				{name: "lend/borrow-against-foreign-lend", owner: owner, mk: func(a *sim.Acct) sdk.Msg {
